@@ -93,7 +93,7 @@ Definition si_remove (s : shared_info) (id : nat) : res shared_info :=
   else Ok {| si_mask := mdel (si_mask s) id; si_ids := si_ids s; si_data := si_data s |}.
 (* component_mask.hpp:219-233: this.merge(oth) *)
 Definition si_merge (s oth : shared_info) : shared_info :=
-  {| si_mask := munion (si_mask oth) (si_mask s); si_data := si_data oth ++ si_data s; si_ids := si_ids s |}.
+  {| si_mask := munion (si_mask oth) (si_mask s); si_data := si_data oth ++ si_data s; si_ids := si_ids oth ++ si_ids s |}.
 Definition si_eqb (a b : shared_info) : bool :=
   (si_mask a =? si_mask b) && (if list_eq_dec Nat.eq_dec (si_data a) (si_data b) then true else false).
 
@@ -850,6 +850,7 @@ Inductive op :=
 | ODep (c : nat) (m : mask)
 | OVerChunk (n : nat)
 | OChunkFn (mn mx : nat) (m : mask)
+| OBuild (tid : nat) (target : option handle) (assigns : list (nat * Z)) (removes : list nat)
 | OTeardown
 | ORunJob (j : job) (parallel : bool) (tasks_override : nat) (workers : nat) (cap : nat).
 
@@ -863,6 +864,45 @@ Definition make_shared_info (s : mst) (sids : list nat) : res (mst * shared_info
       let '(st1, i) := new_inst st sid 0%Z in
       do sh' <- si_add sh sid i; Ok (st1, sh')) sids (s, si_null).
 
+
+(* ---- the entity builder: begin(e).remove<R>()...assign<A>(x)...end() -> EntityManager::apply ---- *)
+(* initComponent<Component>(archetype, index, args) with one constructor argument: entity_manager.hpp:553-576 *)
+Definition init_component_arch (s : mst) (h : handle) (c : nat) (x : Z) : res mst :=
+  do inf <- info_of s c;
+  do la <- loc_arch s h;
+  let '(ai, slot) := la in
+  do a <- nth_res (archs s) ai;
+  match cindex (am_mask a) c with
+  | None => Err OobIndex              (* getComponentIndex<kUnsafe> of a component the archetype lacks *)
+  | Some ci =>
+    do s1 <- (if ci_hasval inf then write_cell s ai ci slot (Some x) else Ok s);
+    let p := PArch ai c slot in
+    let s2 := if ci_ev inf then emit s1 (EvV (ci_pal inf) p) else s1 in
+    Ok (if ci_aa inf then emit s2 (EvAA (ci_pal inf) p h) else s2)
+  end.
+
+(* initComponent(storage.assignComponent(world, entity, id, true), world, entity, arg): the locked branch *)
+Definition assign_locked_value (s : mst) (tid : nat) (h : handle) (c : nat) (x : Z) : res mst :=
+  do inf <- info_of s c;
+  do r <- assign_locked s tid h c true;
+  let '(s1, n) := r in
+  do s2 <- (if ci_hasval inf then write_tmp s1 tid n (Some x) else Ok s1);
+  let p := PTmp (epoch s * 64 + tid) n in
+  Ok (if ci_ev inf then emit s2 (EvV (ci_pal inf) p) else s2).
+
+Definition mask_of_list (l : list nat) : mask := fold_left madd l 0.
+
+(* updateComponents, unlocked branch: entity_manager.hpp:1013-1027 *)
+Definition build_update_unlocked (s : mst) (h : handle) (assigns : list (nat * Z)) (removes : list nat) : res mst :=
+  let skip := mask_of_list (map fst assigns) in
+  do la <- loc_arch s h;
+  let '(pai, pidx) := la in
+  do pa <- nth_res (archs s) pai;
+  let m := minter (munion skip (am_mask pa)) (minverse (mask_of_list removes)) in
+  do r <- get_arch s m (si_merge si_null (am_shared pa));
+  let '(s1, ai) := r in
+  do s2 <- external_move s1 ai h pai pidx skip;
+  fold_res (fun st (a : nat * Z) => init_component_arch st h (fst a) (snd a)) assigns s2.
 
 (* lock() / unlock(): entity_manager.hpp:443-465 *)
 Definition do_lock (s : mst) : mst :=
@@ -953,9 +993,9 @@ Definition step (s : mst) (o : op) : res (mst * out) :=
       | AValue x =>
         do s2 <- (if ci_hasval inf then write_tmp s1 tid n (Some x) else Ok s1);
         if typed then
+          (* the temporary is constructed from the arguments; afterAssign fires when it is attached at unlock *)
           let p := PTmp (epoch s * 64 + tid) n in
-          let s3 := if ci_ev inf then emit s2 (EvV (ci_pal inf) p) else s2 in
-          Ok (if ci_aa inf then emit s3 (EvAA (ci_pal inf) p h) else s3, RNone)
+          Ok (if ci_ev inf then emit s2 (EvV (ci_pal inf) p) else s2, RNone)
         else Ok (s2, RNone)
       end
     end
@@ -964,6 +1004,47 @@ Definition step (s : mst) (o : op) : res (mst * out) :=
     | O => if typed && negb (is_valid s h) then Ok (s, RNone)
            else do s1 <- remove_unlocked s h c; Ok (s1, RNone)
     | S _ => do s1 <- push_cmd s tid (ARemove h c); Ok (s1, RNone)
+    end
+  | OBuild tid target assigns removes =>
+    match target, assigns with
+    | None, [] =>
+      (* create() *)
+      match lockc s with
+      | O =>
+        do r <- get_arch s 0 si_null;
+        let '(s1, ai) := r in
+        do r2 <- create_id s1;
+        let '(s2, h) := r2 in
+        do s3 <- arch_insert s2 ai h 0;
+        Ok (s3, RHandle h)
+      | S _ => do r <- create_locked s tid 0 si_null; Ok (fst r, RHandle (snd r))
+      end
+    | None, _ =>
+      match lockc s with
+      | O =>
+        (* createWithOutInit + initComponents: entity_manager.hpp:986-990 *)
+        do r <- create_id s;
+        let '(s1, h) := r in
+        let m := mask_of_list (map fst assigns) in
+        do r2 <- get_arch s1 m si_null;
+        let '(s2, ai) := r2 in
+        do s3 <- arch_insert s2 ai h m;
+        do s4 <- fold_res (fun st (a : nat * Z) => init_component_arch st h (fst a) (snd a)) assigns s3;
+        Ok (s4, RHandle h)
+      | S _ =>
+        do r <- create_locked s tid 0 si_null;
+        let '(s1, h) := r in
+        do s2 <- fold_res (fun st (a : nat * Z) => assign_locked_value st tid h (fst a) (snd a)) assigns s1;
+        Ok (s2, RHandle h)
+      end
+    | Some h, _ =>
+      match lockc s with
+      | O => do s1 <- build_update_unlocked s h assigns removes; Ok (s1, RNone)
+      | S _ =>
+        do s1 <- fold_res (fun st (a : nat * Z) => assign_locked_value st tid h (fst a) (snd a)) assigns s;
+        do s2 <- fold_res (fun st c => push_cmd st tid (ARemove h c)) (mitems (mask_of_list removes)) s1;
+        Ok (s2, RNone)
+      end
     end
   | OAssignShared h sid v => do s1 <- assign_shared s h sid v; Ok (s1, RNone)
   | ORemoveShared h sid => do r <- remove_shared s h sid; Ok (fst r, RBool (snd r))
